@@ -11,7 +11,7 @@
 From Coq Require Import Reals ZArith List String.
 From PyLib Require Import PyVal PyBuiltins Ideal.
 From Gen Require Import M_base M_Angle M_Epoch M_Interpolation M_Coordinates M_Earth.
-From Proofs.C18 Require Import C18_spec C18_bridge C18_dist C18_main.
+From Proofs.C18 Require Import C18_spec C18_defs C18_bridge C18_dist C18_main.
 Import ListNotations.
 Open Scope R_scope.
 
